@@ -2,6 +2,8 @@ import RbV.Model.Fasta
 import RbV.Model.Fastq
 import RbV.Lemmas.Fastx
 import RbV.Lemmas.FastqPrefix
+import RbV.Model.BufLines
+import RbV.Lemmas.BufLines
 /-!
 # C11 — FASTA/FASTQ round trip is lossless and layout independent; truncated FASTQ is prefix safe
 
@@ -117,6 +119,36 @@ theorem fastq_prefix_checked_mem (recs : List FqRec) (hv : ∀ r ∈ recs, Valid
       exact List.mem_of_getElem? hx
     · simp at hr; subst hr; rw [hx] at hc; cases hc
 
+/-! ## Buffer capacity and read fragmentation (`RbV/Model/BufLines.lean`)
+
+`BufLines` mirrors `BufReader::fill_buf`/`consume` and `read_until(b'\n')` over a source whose `k`-th `read` call
+returns `min (sched k) (min c available)` bytes; `Admissible sched` = every read before the end of input returns at
+least one byte.  The model loops terminate by well-founded recursion on the number of pending bytes (a round either
+returns or has consumed a non-empty buffer); capacity ≥ 1 and admissibility are what make an empty `fill_buf` mean
+end of input. -/
+
+open RbV.BufLines in
+/-- **one `read_line` call**: from every reader state, with every capacity ≥ 1 and every admissible schedule, the call
+hands out the first line (up to and including the first LF, or everything that is left) of the bytes not yet
+delivered, and exactly the rest stays pending. -/
+theorem read_line_call (c : Nat) (sched : Nat → Nat) (hc : 1 ≤ c) (hs : Admissible sched) (s : St) :
+    (readLine c sched s).1 = (firstLine s.pending).1 ∧ (readLine c sched s).2.pending = (firstLine s.pending).2 :=
+  readLine_spec c sched hc hs s
+
+open RbV.BufLines in
+/-- at end of input `read_line` hands out the empty string for ever -/
+theorem read_line_eof (c : Nat) (sched : Nat → Nat) (s : St) (h : s.pending = []) :
+    (readLine c sched s).1 = [] ∧ (readLine c sched s).2.pending = [] := by
+  rw [readLine_eof c sched s h]; exact ⟨rfl, h⟩
+
+open RbV.BufLines in
+/-- **`read_line` is independent of buffer capacity and read fragmentation**: the lines handed out by repeated
+`read_line` calls on a fresh `BufReader` (up to the first empty one) are exactly `splitLines file` — the list the
+FASTA/FASTQ reader models work on; this includes a last line without terminator and the empty file. -/
+theorem read_line_schedule_independent (c : Nat) (sched : Nat → Nat) (hc : 1 ≤ c) (hs : Admissible sched)
+    (file : Bytes) : linesVia c sched file = splitLines file := by
+  simpa [linesVia, init, St.pending] using readLines_eq c sched hc hs (init file)
+
 /-! ## Non-vacuity -/
 
 private def exFa : List FaRec :=
@@ -139,5 +171,13 @@ example : parseFastq (writeFastq exFq) = exFq.map FqItem.ok := fastq_roundtrip e
 /-- a cut in the middle of the second record: whatever passes `check()` is an original record -/
 example (r : FqRec) (hr : FqItem.ok r ∈ parseFastq ((writeFastq exFq).take 14)) (hc : r.check = true) : r ∈ exFq :=
   fastq_prefix_checked_mem exFq exFq_valid 14 r hr hc
+
+/-- capacity 2, reads of 1, 3, 1, 3, … bytes (cut to the capacity); last line without terminator -/
+example : RbV.BufLines.linesVia 2 (RbV.BufLines.cyclic [1, 3]) [62, 105, 10, 65, 67, 71, 10, 10, 84] =
+    [[62, 105, 10], [65, 67, 71, 10], [10], [84]] :=
+  (read_line_schedule_independent 2 _ (by decide) (RbV.BufLines.cyclic_admissible _) _).trans (by decide)
+
+example : RbV.BufLines.linesVia 1 (fun _ => 1) [] = [] :=
+  (read_line_schedule_independent 1 _ (by decide) (fun _ => Nat.le_refl 1) _).trans (by decide)
 
 end RbV.Thm.C11
